@@ -12,6 +12,8 @@ RULE = ("ground truth: the 878 constants of /repo/db/*.bin.gz decoded by the har
         "whose constant carries ALL query words among its tokens, has value, unit, description, and a source id that Db::get_source "
         "resolves. Untypeable constants are listed, not judged. non-trivial = distinct (constant, word order) query")
 
+BLANKS = [" ", "\t"]      # run(): replaced by c06.discover_blanks()
+
 def more_orders(toks):
     """Systematic orders for phrases of more than three words: reversed, all rotations, every word moved to the end and to the front."""
     toks = list(toks)
@@ -59,6 +61,15 @@ def shard(p):
                 q = " ".join(o)
                 reqs.append({"op": "query", "q": q, "describe": True})
                 meta.append((f, q, o == tuple(toks)))
+            # the own words separated by RUNS of blanks (1-16 characters, every character this build's lexer treats as a blank):
+            # the number and kind of blanks between the words of a phrase must not matter (C06; seed C16-d)
+            if len(toks) > 1 and not toks[0][0].isdigit():
+                for _ in range(2):
+                    q = toks[0]
+                    for w in toks[1:]:
+                        q += "".join(rng.choice(BLANKS) if rng.random() < 0.5 else " " for _ in range(rng.choice([1, 2, 3, 5, 8, 12, 13, 16]))) + w
+                    reqs.append({"op": "query", "q": q, "describe": True})
+                    meta.append((f, q, False))
         if p.get("adjacent"):
             # near-duplicate phrases next to each other, ascending and then descending: anything the database remembers from one
             # lookup to the next (a memo keyed on a prefix, a case fold or a hash of the phrase; seeds C16-c, C14-c) is asked the
@@ -123,6 +134,8 @@ def run(tier, seed):
     bins = {k: build.build(k)["vdriver"] for k in ("dbg", "rel")}
     with Driver(bins["dbg"]) as d:
         facts, sources = FX.load(d)
+    import c06
+    BLANKS[:] = c06.discover_blanks(bins["dbg"])
     ty = [f for f in facts if FX.typeable(f["tokens"])]
     un = [f for f in facts if not FX.typeable(f["tokens"])]
     acc = Acc()
